@@ -192,7 +192,7 @@ def gen_case(rng, idx, nmax, malformed=False):
                 dl = len(p0['default'][1]) if p0['default'][0] == 't' else 1
                 pairs[0][1] = ['l', [gnum(rng) for _ in range(dl + 1)]]
             elif r < 0.18:
-                vn = 'v' * (33 - len(name) - 1 - rng.choice([0, 1, 2]))   # full name 31..33 chars
+                vn = 'uvw'[k] * (33 - len(name) - 1 - rng.choice([0, 1, 2]))   # full name 31..33 chars, distinct per k
             vs.append([vn, pairs])
         case['variants'] = vs
     outer = tree['params'][tree['prepend']:]
